@@ -65,45 +65,67 @@ def run(rep, programs):
         blocks = arm_blocks[k]
         w = 1 << k
         key = "order%d" % k
-        thens = [(bi, t) for bi, t in b.calls_to("bool::then") if bi in blocks]
-        if len(thens) != 1:
-            rep.violation(rule, key + "|then", "expected one `(off < 64).then(..)` in the arm, found %d" % len(thens), b.span)
+        # the arm's result: `(off < 64).then(|| (row, off))` or the same written as if/else
+        cands = []      # (guard term, row term, returned-offset term, span) in terms of the outer body
+        for tb, tt in [(bi, t) for bi, t in b.calls_to("bool::then") if bi in blocks]:
+            clos = [x for x in T.walk(tm.operand(tt["args"][1])) if x[0] == "agg" and x[1].startswith("closure:")]
+            if not clos:
+                continue
+            cb = prog.body(clos[0][1][len("closure:"):])
+            names = [u["name"] for u in cb.j.get("upvars", [])]
+            ctm = T.Terms(cb, prog)
+            for _, si, rv in lib.assignments_to_return(cb):
+                if si == "term":
+                    continue
+                r = ctm.rvalue(rv)
+                for nm, cap in zip(names, clos[0][2]):
+                    r = T.subst(r, ("up", nm), T.strip_refs(cap))
+                if r[0] == "agg" and len(r[2]) == 2:
+                    cands.append((tm.operand(tt["args"][0]), r[2][0], r[2][1], tt["span"]))
+        for bi, si, st in b.stmts():
+            if bi in blocks and st["k"] == "assign" and st["rv"]["k"] == "aggregate" and st["rv"]["kind"].get("variant") == "Some":
+                val = tm.operand(st["rv"]["ops"][0])
+                ces = [(s_, d_) for s_, d_ in lib.controlling_edges(b, bi) if s_ in blocks]
+                if val[0] == "agg" and len(val[2]) == 2 and ces:
+                    s_, d_ = ces[-1]
+                    g = tm.operand(b.term(s_)["discr"])
+                    pol = lib.bool_edge_polarity(b, s_, d_)
+                    if g[0] == "bin" and pol is not None:
+                        cm = lib.normalize_cmp(g)
+                        if cm and not pol:
+                            cm = lib.negate_rel(cm)
+                        cands.append((("cmp",) + tuple(cm) if cm else g, val[2][0], val[2][1], st["span"]))
+        if len(cands) != 1:
+            rep.violation(rule, key + "|then", "expected one guarded result `(row, off)` in the arm, found %d" % len(cands), b.span)
             continue
-        tb, tt = thens[0]
-        guard = tm.operand(tt["args"][0])
-        clos = [x for x in T.walk(tm.operand(tt["args"][1])) if x[0] == "agg" and x[1].startswith("closure:")]
-        cmp_ = lib.normalize_cmp(guard) if guard[0] == "bin" else None
+        guard, row, roff, gspan = cands[0]
+        if guard[0] == "cmp":
+            cmp_ = guard[1:]
+        else:
+            cmp_ = lib.normalize_cmp(guard) if guard[0] == "bin" else None
         off = None
         if cmp_ and cmp_[1] == "lt" and T.const_val(cmp_[2]) == 64:
             off = cmp_[0]
-        rep.check(off is not None, rule, key + "|guard", "result only if off < 64", "guard is " + T.show(guard), tt["span"])
-        if off is None or not clos:
+        elif cmp_ and cmp_[1] == "gt" and T.const_val(cmp_[0]) == 64:
+            off = cmp_[2]
+        rep.check(off is not None, rule, key + "|guard", "result only if off < 64", "guard is " + T.show(guard if guard[0] != "cmp" else guard[1])[:80], gspan)
+        if off is None:
             continue
-        cb = prog.body(clos[0][1][len("closure:"):])
-        names = [u["name"] for u in cb.j.get("upvars", [])]
-        caps = dict(zip(names, clos[0][2]))
-        ctm = T.Terms(cb, prog)
-        ret = [ctm.rvalue(rv) for bi, si, rv in lib.assignments_to_return(cb) if si != "term"]
+        tt = {"span": gspan}
         good = False
-        detail = T.show(ret[0]) if ret else "?"
-        if ret and ret[0][0] == "agg" and len(ret[0][2]) == 2:
-            row, roff = ret[0][2]
-            c = T.canon(row)
-            # BitOr(v, Shl(C, off))
-            if c[0] == "bin" and c[1] == "BitOr":
-                parts = [c[2], c[3]]
-                vpart = [x for x in parts if x == ("up", "v")]
-                shl = [x for x in parts if x[0] == "bin" and x[1] == "Shl"]
-                if vpart and shl:
-                    C = shl[0][2]
-                    o = shl[0][3]
-                    good = (C == ("c", (1 << w) - 1) and o == ("up", "off") and T.canon(roff) == ("up", "off"))
-        rep.check(good, rule, key + "|adds-block", "returns (v | (%#x << off), off)" % ((1 << w) - 1),
-                  "arm for order %d returns %s: it does not add exactly %d contiguous bits at the reported offset" % (k, detail, w), cb.span)
-        # the captured off is the guarded value, the captured v is the parameter
-        cap_off = T.canon(T.strip_refs(caps.get("off", ("k",))))
-        rep.check(cap_off == T.canon(off) and T.canon(T.strip_refs(caps.get("v", ("k",)))) == ("p", "v"), rule, key + "|same-off",
-                  "the offset returned is the guarded one", "closure captures %s, guard tests %s" % (cap_off, T.canon(off)), tt["span"])
+        detail = "(%s, %s)" % (T.show(row)[:80], T.show(roff)[:40])
+        c = T.canon(row)
+        coff = T.canon(T.strip_casts(off))
+        if c[0] == "bin" and c[1] == "BitOr":
+            parts = [c[2], c[3]]
+            vpart = [x for x in parts if x == ("p", "v")]
+            shl = [x for x in parts if x[0] == "bin" and x[1] == "Shl"]
+            if vpart and shl:
+                C = shl[0][2]
+                o = shl[0][3]
+                good = (C == ("c", (1 << w) - 1) and o == coff and T.canon(T.strip_casts(roff)) == coff)
+        rep.check(good, rule, key + "|adds-block", "returns (v | (%#x << off), off) for the guarded off" % ((1 << w) - 1),
+                  "arm for order %d returns %s: it does not add exactly %d contiguous bits at the reported (guarded) offset" % (k, detail, w), gspan)
         # candidate positions
         o = T.strip_casts(off)
         P = None
